@@ -23,7 +23,15 @@ COQ = os.path.join(VERIF, "coq")
 GEN = os.path.join(COQ, "Gen")
 PY = "/venv/bin/python"
 COQ_DIRS = ["Lib", "Spec", "Gen", "Model", "Proofs", "Props", "Extract"]
-ALLOWED_AXIOMS = set()      # every property theorem is required to be closed
+ALLOWED_AXIOMS = set()      # every property theorem is required to be closed ...
+# ... except the theorems about the IEEE double that recheck reports (C04/C05/C16 *_float_*): they are stated over Flocq's
+# rounding of real numbers and inherit the axioms that Coq's standard library of reals declares
+REAL_AXIOMS = {"ClassicalDedekindReals.sig_not_dec", "ClassicalDedekindReals.sig_forall_dec",
+               "FunctionalExtensionality.functional_extensionality_dep", "Classical_Prop.classic"}
+
+
+def allowed_axioms_for(theorem):
+    return ALLOWED_AXIOMS | (REAL_AXIOMS if "_float_" in theorem else set())
 
 sys.path.insert(0, os.path.join(VERIF, "gen"))
 sys.path.insert(0, os.path.join(VERIF, "harness"))
@@ -199,9 +207,29 @@ def audit_props(prop_id, timeout=600):
             ax = re.findall(r"^(\S+)\s*:", b, re.M)
             ax = [a for a in ax if a != "Axioms"]
         res["assumptions"][t] = ax
-        if all(a in ALLOWED_AXIOMS for a in ax):
+        if all(a in allowed_axioms_for(t) for a in ax):
             res["discharged"].append(t)
     res["ok"] = len(res["discharged"]) == len(thms) and len(thms) > 0
+    return res
+
+
+def coqchk(prop_id, timeout=3000):
+    """independent re-check of Props/<id>.vo and everything it depends on; returns dict(ok, axioms, log)"""
+    with Lock():
+        p = subprocess.run(["timeout", str(timeout), "coqchk", "-silent", "-o", "-Q", ".", "TF", f"TF.Props.{prop_id}"], cwd=COQ,
+                           capture_output=True, text=True)
+    out = p.stdout + p.stderr
+    res = {"ok": p.returncode == 0, "axioms": [], "log": out[-1500:]}
+    m = re.search(r"\* Axioms:(.*?)\n\s*\n\* Constants/Inductives relying on type-in-type:(.*?)\n\s*\n\* Constants/Inductives relying on unsafe"
+                  r" \(co\)fixpoints:(.*?)\n\s*\n\* Inductives whose positivity is assumed:(.*?)\n", out + "\n", re.S)
+    if not m:
+        res["ok"] = False
+        return res
+    ax, tit, unsafe, pos = [x.strip() for x in m.groups()]
+    res["axioms"] = [] if ax == "<none>" else [a.strip() for a in ax.splitlines() if a.strip()]
+    if tit != "<none>" or unsafe != "<none>" or pos != "<none>":
+        res["ok"] = False
+        res["log"] = f"type-in-type: {tit}; unsafe fixpoints: {unsafe}; assumed positivity: {pos}"
     return res
 
 
